@@ -579,6 +579,9 @@ ModuleScenarios == (
   @@ "import-forms"         :> <<"import", "'s'", ";", "import", "a", "from", "'s'", ";", "import", "{", "}", "from", "'s'", ";", "import", "b", ",", "{", "c", "as", "d", "}", "from", "'s'", ";", "import", "*", "as", "n", "from", "'s'", ";", "import", "e", ",", "*", "as", "m", "from", "'s'", ";">>
   @@ "import-expr"          :> <<"import", "(", "'s'", ")", ".", "then", "(", A, ")", ";", "import", ".", "meta", ".", "url", ";", "x", "=", "import", ".", "meta", ";">>
   @@ "shebang-like"         :> <<"/*!k*/", A, ";", "/*! c\n d */", "b", ";">>
+  \* (a hashbang line stays the first thing printed, whatever preserved comments the module holds)
+  @@ "shebang"              :> <<"#!/usr/bin/env node", NL, "/*!k*/", A, ";", "/*! c\n d */", "b", ";">>
+  @@ "shebang-only-comment" :> <<"#!x", NL, "/*!k*/">>
 )
 ModuleNames == DOMAIN ModuleScenarios
 
